@@ -3,7 +3,9 @@ pub mod c02x;
 pub mod c07;
 pub mod c08;
 pub mod c11;
+pub mod c12;
 pub mod c16;
+pub mod svgcheck;
 
 use crate::report::{Collector, Ctx};
 
@@ -25,12 +27,16 @@ pub fn run(ctx: &Ctx) -> Option<Collector> {
         "C11" => c11::run(ctx),
         "C16" => c16::run(ctx),
         "C10" => basic::c10(ctx),
+        "C12" => c12::run(ctx),
         "C15" => basic::c15(ctx),
         _ => return None,
     })
 }
 
 /// replay of case kinds that belong to one property only
-pub fn replay_other(prop: &str, kind: &str, _case: &serde_json::Value) -> Result<Vec<(String, String)>, String> {
+pub fn replay_other(prop: &str, kind: &str, case: &serde_json::Value) -> Result<Vec<(String, String)>, String> {
+    if kind.starts_with("svg-") {
+        return c12::replay(case);
+    }
     Err(format!("no single-case replay for kind '{}' of {}: re-run ./check {} (the sweep is deterministic and reports the same first case)", kind, prop, prop))
 }
